@@ -414,3 +414,39 @@ def _brief(e):
         s = json.dumps(v, ensure_ascii=False)
         out[k] = v if len(s) < 400 else s[:400] + "..."
     return out
+
+
+def judge_traces(ctx, modname, cases, trace_module, cfg_text, describe, shard=3000, env=None, chunk=50,
+                 nontrivial=None, heap="3g"):
+    """Like judge(), for stateful objects: execute(case) returns a list of events (one trace,
+    starting with a 'new' event); a trace is never split across TLC shards.
+    Returns failing (case-with-failing-step, event, clauses, triggers)."""
+    for i, c in enumerate(cases):
+        c["id"] = i + 1
+    traces = execute_all(modname, cases, chunk=chunk)
+    events = []
+    owner = []
+    for ci, tr in enumerate(traces):
+        for si, e in enumerate(tr):
+            e["id"] = len(events) + 1
+            e["tr"] = ci
+            events.append(e)
+            owner.append((ci, si))
+    ctx.evaluations += len(events)
+    ctx.traces_validated += len(traces)
+    if nontrivial is not None:
+        for c, tr in zip(cases, traces):
+            k = nontrivial(c, tr)
+            if k is not None:
+                ctx.nontrivial.add(k)
+    if not ctx.samples:
+        step = max(1, len(cases) // 6)
+        ctx.samples = [{"case": describe(cases[i]), "last_event": _brief(traces[i][-1])} for i in range(0, len(cases), step)][:8]
+    verdicts = ctx.validate(trace_module, events, cfg_text, shard=shard, env=env, group=lambda e: e["tr"], heap=heap)
+    failing = []
+    for vid, clauses, triggers, _rest in verdicts:
+        ci, si = owner[vid - 1]
+        c = dict(cases[ci])
+        c["fail_step"] = si
+        failing.append((c, events[vid - 1], clauses, triggers))
+    return failing
